@@ -53,6 +53,9 @@ func Rename(p *Program, vr, fn, str func(string) string) {
 			if s.Key != "" {
 				s.Key = vr(s.Key)
 			}
+			if s.BoundVar != "" {
+				s.BoundVar = vr(s.BoundVar)
+			}
 			ex(s.E)
 			ex(s.Init)
 			ex(s.Subj)
